@@ -2,6 +2,9 @@
 package c15
 
 import (
+	"strconv"
+	"sync"
+
 	"github.com/avfs/avfs"
 	"github.com/avfs/avfs/idm/memidm"
 
@@ -10,6 +13,7 @@ import (
 
 func init() {
 	sym.Register("c15.HSeq", HSeq)
+	sym.Register("c15.HConc", HConc)
 }
 
 type ent struct {
@@ -239,4 +243,151 @@ func HSeq(L, n int) {
 		}
 	}
 	sym.Reach("end")
+}
+
+// ---- concurrent histories ----
+
+// ConcOps are the calls of the concurrent harness (names from a small pool).
+var ConcOps = []string{"AddGroup(x)", "AddGroup(y)", "DelGroup(g)", "AddUser(v,g)", "AddUser(v,x)", "DelUser(u)", "LookupUser(u)", "LookupGroup(g)", "AddUser(w,g)", "LookupGroup(x)", "AddGroup(g)"}
+
+// NumConcOps is len(ConcOps).
+const NumConcOps = 11
+
+func ek(err error) string {
+	k, s, id := classify(err)
+	return kindNames[k] + ":" + s + ":" + strconv.Itoa(id)
+}
+
+func runIdm(idm *memidm.MemIdm, i int) string {
+	switch ConcOps[i] {
+	case "AddGroup(x)":
+		g, err := idm.AddGroup("x")
+		if err == nil {
+			return "ok:" + strconv.Itoa(g.Gid())
+		}
+		return ek(err)
+	case "AddGroup(y)":
+		g, err := idm.AddGroup("y")
+		if err == nil {
+			return "ok:" + strconv.Itoa(g.Gid())
+		}
+		return ek(err)
+	case "AddGroup(g)":
+		g, err := idm.AddGroup("g")
+		if err == nil {
+			return "ok:" + strconv.Itoa(g.Gid())
+		}
+		return ek(err)
+	case "DelGroup(g)":
+		return ek(idm.DelGroup("g"))
+	case "AddUser(v,g)":
+		u, err := idm.AddUser("v", "g")
+		if err == nil {
+			return "ok:" + strconv.Itoa(u.Uid()) + "," + strconv.Itoa(u.Gid())
+		}
+		return ek(err)
+	case "AddUser(w,g)":
+		u, err := idm.AddUser("w", "g")
+		if err == nil {
+			return "ok:" + strconv.Itoa(u.Uid()) + "," + strconv.Itoa(u.Gid())
+		}
+		return ek(err)
+	case "AddUser(v,x)":
+		u, err := idm.AddUser("v", "x")
+		if err == nil {
+			return "ok:" + strconv.Itoa(u.Uid()) + "," + strconv.Itoa(u.Gid())
+		}
+		return ek(err)
+	case "DelUser(u)":
+		return ek(idm.DelUser("u"))
+	case "LookupUser(u)":
+		u, err := idm.LookupUser("u")
+		if err == nil {
+			return "ok:" + strconv.Itoa(u.Uid())
+		}
+		return ek(err)
+	case "LookupGroup(g)":
+		g, err := idm.LookupGroup("g")
+		if err == nil {
+			return "ok:" + strconv.Itoa(g.Gid())
+		}
+		return ek(err)
+	case "LookupGroup(x)":
+		g, err := idm.LookupGroup("x")
+		if err == nil {
+			return "ok:" + strconv.Itoa(g.Gid())
+		}
+		return ek(err)
+	}
+	return "?"
+}
+
+func freshIdm() *memidm.MemIdm {
+	idm := memidm.New()
+	_, _ = idm.AddGroup("g")
+	_, _ = idm.AddUser("u", "g")
+	return idm
+}
+
+// state renders everything observable: by-name and by-id lookups over the pool.
+func state(idm *memidm.MemIdm) string {
+	out := ""
+	for _, n := range []string{"root", "g", "x", "y"} {
+		g, err := idm.LookupGroup(n)
+		if err == nil {
+			out += n + "=" + strconv.Itoa(g.Gid()) + ";"
+		} else {
+			out += n + "=-;"
+		}
+	}
+	for _, n := range []string{"root", "u", "v", "w"} {
+		u, err := idm.LookupUser(n)
+		if err == nil {
+			out += n + "=" + strconv.Itoa(u.Uid()) + "," + strconv.Itoa(u.Gid()) + ";"
+		} else {
+			out += n + "=-;"
+		}
+	}
+	for id := 1000; id <= 1004; id++ {
+		if g, err := idm.LookupGroupId(id); err == nil {
+			out += "g" + strconv.Itoa(id) + "=" + g.Name() + ";"
+		}
+		if u, err := idm.LookupUserId(id); err == nil {
+			out += "u" + strconv.Itoa(id) + "=" + u.Name() + ";"
+		}
+	}
+	return out
+}
+
+// HConc: two goroutines, one MemIdm call each on a shared instance; under every
+// schedule the results and the final state equal those of a sequential order.
+func HConc(a, b int) {
+	label := "memidm|" + ConcOps[a] + "|" + ConcOps[b]
+	sym.Label(label)
+	sym.Reach("concurrent")
+	idm := freshIdm()
+	res := make([]string, 2)
+	var wg sync.WaitGroup
+	wg.Add(2)
+	go func() { defer wg.Done(); res[0] = runIdm(idm, a) }()
+	go func() { defer wg.Done(); res[1] = runIdm(idm, b) }()
+	wg.Wait()
+	sym.Reach("joined")
+	st := state(idm)
+	ok := false
+	for _, first := range []int{0, 1} {
+		ref := freshIdm()
+		r := make([]string, 2)
+		if first == 0 {
+			r[0] = runIdm(ref, a)
+			r[1] = runIdm(ref, b)
+		} else {
+			r[1] = runIdm(ref, b)
+			r[0] = runIdm(ref, a)
+		}
+		if r[0] == res[0] && r[1] == res[1] && state(ref) == st {
+			ok = true
+		}
+	}
+	sym.Assert(ok, "C15|"+label+"|not-linearizable")
 }
